@@ -19,6 +19,9 @@ def run(prog, chk, tier):
                        "both matched to the same layout table; then field by field: the value the writer puts in a slot comes from the attribute the reader's value "
                        "for that slot is stored into (description, blob, actual_len); MAC coverage/IV/key agree on both sides; the text envelope written by "
                        "write_bf3_format is the one parse_bf3_file/hex2bin undo (format string vs split/strip, separator line, character class, newline modes).")
+    from rules import state as _state
+
+    _state.library_state_rules(prog, chk, "C01")
     okw = bf3.rule_writer_layout(m, chk, "C01")
     okr = bf3.rule_reader_layout(m, chk, "C01")
     if okw:
